@@ -194,9 +194,11 @@ class Model:
             data = [('cb', src, j) for j in range(width)]
             k = sum(1 for e in pth.events if e[0] in ('stream-write', 'buffer-write'))
             tgt = referent(fr, args[1])
+            direct0 = fr.operand(args[1])
+            is_view = isinstance(direct0, Ref) and any(e[0] == 'off' for e in direct0.proj)
             if tgt == 'WRITER':
                 pth.events.append(('stream-write', 'write_be', data, True, where))
-            elif isinstance(tgt, Agg) and tgt.kind and tgt.kind[0] == 'vec':
+            elif isinstance(tgt, Agg) and tgt.kind and tgt.kind[0] == 'vec' and not is_view:
                 # Vec<u8> as a writer: appends
                 w = fr.operand(args[1])
                 for _ in range(6):
@@ -210,6 +212,18 @@ class Model:
                 fr.store[w.root] = fr._update(fr.store.get(w.root), list(w.proj), Agg(list(tgt.items) + data, tgt.kind)) if w.proj else Agg(list(tgt.items) + data, tgt.kind)
                 pth.events.append(('buffer-write', 'write_be', len(data), where))
             else:
+                # `&mut [u8]` as a writer (a chunk of a local buffer): the bytes land at the start of the view; too short
+                # a view is a WriteZero error, a view that is long enough cannot fail
+                direct = fr.operand(args[1])
+                vw = view_of(fr, args[1]) if isinstance(direct, Ref) or isinstance(tgt, (Agg, Ref)) else None
+                if vw is not None and (is_view or not (isinstance(tgt, Agg) and tgt.kind and tgt.kind[0] == 'vec')):
+                    root_, base_, lo_, hi_ = vw
+                    if hi_ - lo_ >= width:
+                        for j_, b_ in enumerate(data):
+                            fr.store[root_] = fr._update(fr.store.get(root_), list(base_) + [['ci', lo_ + j_, 0, False]], b_)
+                        pth.events.append(('buffer-write', 'write_be', len(data), where))
+                        fr.storev(dest, Opt('none', Agg([]), ('write', k, where)))
+                        return True
                 pth.events.append(('stream-write', 'write_be', data, False, where))
             fr.storev(dest, Opt(None, exp.Either(Agg([]), ('io-error', 'write', k)), ('write', k, where)))
             return True
